@@ -38,7 +38,8 @@ CONSTANTS
     MaxMid,      \* max number of statements between producer and Use
     FamsFull,    \* producer families used on shallow chains (nopen <= FullDepth)
     FamsRep,     \* representative producer families used everywhere
-    FullDepth
+    FullDepth,
+    FullMid      \* max number of statements between producer and Use for families outside FamsRep
 
 (***************************************************************************)
 (* Signature table, part 1: producer families.                             *)
@@ -136,7 +137,7 @@ Init0(root) ==
      blocks |-> <<[kind |-> "fn", ent |-> 0]>>,
      frames |-> <<>>,
      val    |-> NoVal,
-     n      |-> 0, nopen |-> 0, nmid |-> 0,
+     n      |-> 0, nopen |-> 0, nall |-> 0, nmid |-> 0,
      phase  |-> "open",
      rej    |-> FALSE,        \* MODEL: the signature table (loan checker) rejects the program
      hazard |-> FALSE,        \* CONTRACT: the program uses memory that may have been reused / weakens a guarantee
@@ -409,10 +410,10 @@ StepMid(st, s) ==
     IN
     CASE s.op = "Reset" ->        \* bump.reset() / bump.reset_to_start() (also through a `&mut Bump`)
             IF ~(valid /\ e.k \in {"bump", "refmut"}) THEN Bad(st) ELSE
-            KillArena(ApplyNeeds(UseEnt(st, h), {<<h, "mut">>}, {}), e.arena, s.a = "reset", s.a)
-      [] s.op = "PoolReset" ->    \* pool.reset() / pool.reset_to_start()
+            KillArena(ApplyNeeds(UseEnt(st, h), {<<h, "mut">>}, {}), e.arena, s.a # "reset_to_start", s.a)
+      [] s.op = "PoolReset" ->    \* pool.reset() / pool.reset_to_start() / pool.bumps().clear() (drops the arenas)
             IF ~(valid /\ e.k = "pool") THEN Bad(st) ELSE
-            KillAll(ApplyNeeds(UseEnt(st, h), {<<h, "mut">>}, {}), s.a = "reset", "pool_" \o s.a)
+            KillAll(ApplyNeeds(UseEnt(st, h), {<<h, "mut">>}, {}), s.a # "reset_to_start", "pool_" \o s.a)
       [] s.op = "GReset" ->       \* guard.reset()
             IF ~(valid /\ e.k = "guard") THEN Bad(st) ELSE
             KillFrame(ApplyNeeds(UseEnt(st, h), {<<h, "mut">>}, {}), e.arena, e.frame, "guard_reset")
@@ -504,10 +505,12 @@ OpenCands(st) ==
     THEN (IF st.ents[1].moved THEN {} ELSE {St("PoolGet", 1, "", "")})
     ELSE IF t = 0 \/ ~ClaimOK(st, t) THEN {}
     ELSE LET k == st.ents[t].k IN
-         (IF k = "bump" THEN {St("RefShr", t, "", ""), St("RefMut", t, "", "")} ELSE {})
+         (IF k = "bump" THEN {St("RefShr", t, "", ""), St("RefMut", t, "", ""),
+                              St("AsScope", t, "from", ""), St("AsMutScope", t, "from", "")} ELSE {})
     \cup (IF k \in BumpIsh THEN {St("AsScope", t, "", "")} ELSE {})
     \cup (IF k \in {"bump", "refmut"} THEN {St("AsMutScope", t, "", "")} ELSE {})
     \cup (IF k \in MutCap THEN {St("Scoped", t, "scoped", ""), St("Scoped", t, "scoped_aligned", ""),
+                                St("Scoped", t, "scoped_trait", ""),
                                 St("Aligned", t, "", ""), St("Guard", t, "", ""), St("Guard", t, "block", "")}
           ELSE {})
     \cup {St("Claim", t, "", "")}
@@ -523,7 +526,7 @@ PendingScope(st) == {St("GScope", g, "", "") : g \in {g \in 1..Len(st.ents) : st
 
 LockedFams == {"alloc", "stats", "vec_into_slice"}
 ProduceCands(st) ==
-    LET fams == IF st.nopen <= FullDepth THEN FamsFull \cup FamsRep ELSE FamsRep
+    LET fams == IF st.nall <= FullDepth THEN FamsFull \cup FamsRep ELSE FamsRep
         t == TopHandle(st)
     IN \* innermost handle: every family and path; outer ("locked") handles: a few families, written explicitly (p1)
        {St("Produce", t, f, p) : f \in {f \in fams : t # 0 /\ ClaimOK(st, t)}, p \in {"p1", "p2", "p3"}}
@@ -534,8 +537,8 @@ MidCands(st) ==
         free(j, m) == NotLockedByClosure(st, j, m)
     IN
        {St("Reset", h, a, "") : h \in {j \in HandleSet(st) : st.ents[j].k \in {"bump", "refmut"} /\ free(j, "mut")},
-                                a \in {"reset", "reset_to_start"}}
-  \cup {St("PoolReset", 1, a, "") : a \in {a \in {"reset", "reset_to_start"} :
+                                a \in {"reset", "reset_to_start", "replace"}}
+  \cup {St("PoolReset", 1, a, "") : a \in {a \in {"reset", "reset_to_start", "bumps_clear"} :
                                             st.ents[1].k = "pool" /\ Usable(st, 1) /\ free(1, "mut")}}
   \cup {St("GReset", g, "", "") : g \in {g \in 1..Len(st.ents) : st.ents[g].k = "guard" /\ Usable(st, g) /\ free(g, "mut")}}
   \cup {St("GScope", g, "", "") : g \in {g \in 1..Len(st.ents) : st.ents[g].k = "guard" /\ Usable(st, g) /\ free(g, "mut")}}
@@ -548,10 +551,12 @@ MidCands(st) ==
         ELSE {})
   \cup (IF d > 1 /\ st.blocks[d].kind = "block" THEN {St("CloseBlock", 0, "", "")} ELSE {})
 
+MidLimit(st) == IF st.val.fam \in FamsRep THEN MaxMid ELSE FullMid
+
 \* a later sub-scope on the innermost handle that does not touch the value (LIFO): `h.scoped(|_| {})`
 SubScopeCands(st) ==
     LET t == TopHandle(st) IN
-    IF t # 0 /\ st.ents[t].k \in MutCap /\ ClaimOK(st, t) /\ st.nmid + 2 <= MaxMid
+    IF t # 0 /\ st.ents[t].k \in MutCap /\ ClaimOK(st, t) /\ st.nmid + 2 <= MidLimit(st)
     THEN {St("Scoped", t, "scoped", "")} ELSE {}
 
 ClosingCand(st) ==
@@ -578,11 +583,12 @@ Cands(st) ==
                     \cup ProduceCands(st))
     ELSE IF st.val.dead \/ st.val.ret THEN {St("Use", 0, "", "")}
     ELSE {St("Use", 0, "", "")}
-         \cup (IF st.nmid < MaxMid THEN MidCands(st) \cup SubScopeCands(st) ELSE {})
+         \cup (IF st.nmid < MidLimit(st) THEN MidCands(st) \cup SubScopeCands(st) ELSE {})
 
 \* bookkeeping of the exploration bounds (not part of the program semantics)
 Account(st, s, s1) ==
-    [s1 EXCEPT !.nopen = IF s.op \in Openers THEN st.nopen + 1 ELSE st.nopen,
+    [s1 EXCEPT !.nopen = IF s.op \in Openers \ {"PoolGet"} THEN st.nopen + 1 ELSE st.nopen,     \* pool.get() is the pool's way to an arena
+               !.nall  = IF s.op \in Openers THEN st.nall + 1 ELSE st.nall,
                !.nmid  = IF st.val.ent # 0 /\ ~st.val.used /\ s.op # "Use" THEN st.nmid + 1 ELSE st.nmid,
                !.phase = IF s.op = "Spawn" /\ st.val.ent = 0 THEN "closing" ELSE s1.phase]
 
